@@ -86,7 +86,7 @@ def do_fit(c):
         seq = [int(status)]
         try:
             st = status
-            for _ in range(4):
+            for _ in range(2 * int(sset.mask.size) + 4):     # every -1 masks at least one more breakpoint
                 if st != -1:
                     break
                 with warnings.catch_warnings():
